@@ -12,6 +12,10 @@ use crate::{
     varint::{VARINT_MAX, VarInt},
 };
 
+/// The most connection IDs issued to the peer at a time, however large its
+/// active_connection_id_limit is.
+const MAX_ISSUED_ACTIVE_CIDS: u64 = 64;
+
 /// Local connection ID management.
 #[derive(Debug)]
 struct LocalCids<ISSUED>
@@ -79,7 +83,9 @@ where
             )
             .into());
         }
-        for _ in self.cid_deque.largest()..active_cid_limit {
+        // RFC 9000 §5.1.1: an endpoint MAY limit the total number of connection IDs issued;
+        // the peer's limit can be as large as 2^62 - 1.
+        for _ in self.cid_deque.largest()..active_cid_limit.min(MAX_ISSUED_ACTIVE_CIDS) {
             self.issue_new_cid();
         }
         self.active_cid_limit = Some(active_cid_limit);
